@@ -1005,9 +1005,37 @@ fn small_programs() -> Vec<(u16, Vec<u16>, bool, &'static str)> {
         (0xFDFF, vec![0x1021, 0xF025, 0x1021, 0xF025], false, "straddle-top-1"),
         // origin 0x0000 / 0x0001: address arithmetic below the origin has nowhere to go but under
         // zero (clamping it would land on address 0, which is in user space here)
+        // the program overwrites its own first instruction and loops back to it: paused at the
+        // origin, the word there is not the assembled one (what `reset` puts back must be what runs)
+        (0x3000, vec![0x31FF, 0x1261, 0x0FFD, 0xF025], false, "overwrite-origin"),
         (0x0000, vec![0x1021, 0x1021, 0x1021, 0xF025, 0x0000], false, "origin-zero"),
         (0x0001, vec![0x1021, 0x1021, 0xF025], false, "origin-one"),
     ]
+}
+
+/// `reset` while paused at the origin on a word the program has overwritten, then resume: the
+/// instruction executed next must be the restored one.
+fn reset_at_origin_sessions(tag: &'static str) -> Vec<(DbgCase, &'static str)> {
+    let mut out = Vec::new();
+    let mut rng = Rng::new(0x0217);
+    for resume in [Cmd::StepOver, Cmd::StepInto(1), Cmd::StepInto(2), Cmd::Continue] {
+        for pre in 0..3 {
+            let p = Prog { orig: 0x3000, words: vec![0x31FF, 0x1261, 0x0FFD, 0xF025], inp: vec![], stack: false, minimal: true, kind: "overwrite-origin" };
+            let mut c = decorate(&mut rng, &p, tag, vec![], 3_000);
+            c.breaks = if pre == 2 { vec![0] } else { vec![] };
+            c.labels.clear();
+            let mut cmds = vec![Cmd::StepInto(3)];
+            if pre == 1 {
+                cmds.push(Cmd::PrintMem(Loc::Addr(0x3000)));
+            }
+            cmds.push(Cmd::Reset);
+            cmds.push(resume.clone());
+            cmds.extend([Cmd::PrintMem(Loc::Addr(0x3000)), Cmd::Registers, Cmd::Exit]);
+            c.cmds = cmds;
+            out.push((c, "overwrite-origin"));
+        }
+    }
+    out
 }
 
 /// More memory writes between load and `reset` than any bounded journal of changes would hold
@@ -1425,6 +1453,15 @@ pub fn run_prop(o: &crate::Opts, tag: &'static str) {
     }
     if o.shard == 4 % o.nshards && tag == "D13" {
         for (c, kind) in below_zero_sessions(tag) {
+            let obs = run_debug(&mut cap, &c);
+            let v = if obs.line == "panic" { "-".to_string() } else { verdict(&mut cap, tag, &c, &obs) };
+            *kinds.entry(format!("directed-{}:{}", kind, obs.line.split(' ').next().unwrap_or(""))).or_default() += 1;
+            *verdicts.entry(v.clone()).or_default() += 1;
+            sink.put(&c.request(), &format!("{} | {}", obs.line, v));
+        }
+    }
+    if o.shard == 5 % o.nshards && (tag == "D12" || tag == "D09" || tag == "D10") {
+        for (c, kind) in reset_at_origin_sessions(tag) {
             let obs = run_debug(&mut cap, &c);
             let v = if obs.line == "panic" { "-".to_string() } else { verdict(&mut cap, tag, &c, &obs) };
             *kinds.entry(format!("directed-{}:{}", kind, obs.line.split(' ').next().unwrap_or(""))).or_default() += 1;
